@@ -317,7 +317,7 @@ func writeStrictASCII(sb *strings.Builder, s string, quote byte) {
 				sb.WriteByte(quote)
 				inRun = true
 			}
-			if c == quote || c == '\\' {
+			if c == quote || c == '\\' || c == '>' {
 				sb.WriteByte('\\')
 			}
 			sb.WriteByte(c)
